@@ -8,6 +8,8 @@ state bit for bit at every reachable state.
 """
 from __future__ import annotations
 
+import os
+
 import numpy as np
 
 from .. import em, games, gm
@@ -26,7 +28,7 @@ REAL_VS_STUB = {"real": ["incomplete_cooperative.game", "bounds", "coalitions", 
                 "stub": [], "seams": ["sys.settrace interrupt injector", "functools cache eviction"]}
 ASSUMPTIONS = ["interrupts land between Python lines of package code, not inside numpy calls",
                "bounds are only compared after a completed compute at K containing the minimal information"]
-PROBES = ["oracle_computed_in_a_fresh_process", "same_unknown_ids_at_another_size", "torn_then_recomputed", "two_histories_same_K", "unstep_after_2_steps", "scribble_then_compute",
+PROBES = ["large_n", "oracle_computed_in_a_fresh_process", "same_unknown_ids_at_another_size", "torn_then_recomputed", "two_histories_same_K", "unstep_after_2_steps", "scribble_then_compute",
           "evict_then_compute"]
 TIERS = {
     "quick": {"runs": 60000, "wall": 40, "batch": 32, "shrink_s": 40},
@@ -203,7 +205,44 @@ def run_env(sim: Sim) -> None:
                                                                      "revealed": sorted(taken), "undone": a})
 
 
+def run_large(sim: Sim) -> None:
+    """Rare: n = 7..10 with a cached computer, a short knowledge-decreasing history, fresh-process oracle."""
+    n = 7 + sim.choose(4, "large-n")
+    comp_name = sim.pick(["superadditive_cached", "sam_apx_1"], "large-computer")
+    cls = "SAM" if comp_name.startswith("sam") else sim.pick(["SA", "ANY"], "large-class")
+    rng = sim.np_rng("large-values")
+    if cls == "SAM":
+        w = rng.integers(0, 10, (3, n)).astype(np.float64)
+        member = np.array([[(s >> i) & 1 for i in range(n)] for s in range(2 ** n)], dtype=np.float64)
+        values = -np.max(member @ w.T, axis=1)
+        values[0] = 0.0
+    elif cls == "SA":
+        values = games.sa_closure(rng.integers(-6, 7, 2 ** n).astype(np.float64), n)
+    else:
+        values = rng.integers(-20, 21, 2 ** n).astype(np.float64)
+        values[0] = 0.0
+    sim.config.update(n=n, computer=comp_name, cls=cls, machine="large")
+    sim.probe("large_n")
+    h = gm.GameHarness(sim, n, comp_name, values)
+    with sim.guard("C08.operation_raised"):
+        h.reset_minimal([e for e in h.explorable if rng.random() < 0.05])
+        h.compute()
+        for _ in range(2 + sim.choose(4, "large-ops")):
+            kn = h.known_nonminimal()
+            unk = [i for i in h.explorable if i not in h.kv]
+            if kn and sim.flip(1, 2, "large-unreveal"):
+                h.unreveal(sim.pick(kn, "which"))
+            elif unk:
+                h.reveal(sim.pick(unk, "which"))
+            h.compute()
+            if sim.flip(1, 3, "large-recompute"):
+                h.compute()
+    compare_fresh(sim, h, "C08.history_differs_from_fresh_object", pristine=True)
+
+
 def run(sim: Sim) -> None:
+    if sim.choose(400 if sim.tier == "quick" else 80, "large-mode") == 1 or os.environ.get("VERIF_FORCE_LARGE"):
+        return run_large(sim)
     if sim.choose(4, "machine") == 3:
         run_env(sim)
     else:
